@@ -10,6 +10,7 @@ use runner::{desc, foreign, PartDesc, Tier};
 fn registry() -> Vec<PartDesc> {
     let mut v = vec![];
     v.push(desc::<props::c01::C01>("exploration"));
+    v.push(desc::<props::c02::C02>("exploration"));
     v.push(desc::<props::c03::C03>("exploration"));
     #[cfg(feature = "async-trait")]
     v.push(desc::<props::c01::C01At>("exploration"));
